@@ -121,7 +121,7 @@ def gen_history(rng, stats, names=True, max_adds=8):
 class C01(Check):
     pid = 'C01'
     props_mod = 'OmbottModel.Props.C01'
-    tables = ['router', 'routerbuiltin']
+    tables = ['router', 'routerbuiltin', 'routeurl']
     design_ref = '6/C01'
     anchors = ['ombott/router/radidict.py', 'ombott/router/radirouter.py', 'ombott/router/filter_factory.py',
                'ombott/router/parser.py', 'ombott/router/sym_stream.py', 'ombott/ombott.py']
@@ -173,6 +173,9 @@ class C01(Check):
         for _ in range(n):
             ops = gen_history(rng, self.stats)
             run = G.Runner()
+            # half of the histories are replayed by the model with the handlers of int / float / path
+            # computed concretely (`router histb`, Model/RouterBuiltinEnv.lean) instead of shipped
+            run.histb = rng.random() < .5
             try:
                 play(run, ops)
             except core.Hang:
@@ -190,6 +193,7 @@ class C01(Check):
                 if ans.startswith('hit:') and ('=s.' in ans or '=c.' in ans or ':s.' in ans or ':c.' in ans):
                     wild_hit = True
             self._bump('ops', len(run.ops))
+            self._bump('hist-concrete-builtins' if run.histb else 'hist-shipped-filters')
             out.append((run.line(), run.answer(), dict(ops=ops, wild_hit=wild_hit)))
         out += self.corr_builtin(rng, n)
         return out
@@ -221,6 +225,55 @@ class C01(Check):
             self._bump('builtin-' + name + ('-hit' if v is not None else '-miss'))
             out.append(('router builtin %s %s %s' % (core.hs(name), core.hs(conf or ''), core.hs(text)), ans,
                         dict(kind='builtin', filter=name, conf=conf, text=text)))
+        out += self.corr_concrete(rng, n + 300)
+        return out
+
+    CONCRETE_ALPHA = list('0123456789--..e/+x(1)[a]$^|?*a\n') + ['.tar/', 'é', '٣', '۵', '\r', '00', '.0']
+
+    def corr_concrete(self, rng, n):
+        """the live handlers against the *concrete* filter environment the `…_builtin` theorems are
+        stated over (`router bfilter`: value as shipped and characters consumed; Unicode digits,
+        newlines, long numerals, values whose repr uses exponent notation)"""
+        from ombott.router.filter_factory import FilterFactory
+        from harness.tables.routerbuiltin import PATH_CONFS
+        out = []
+        for _ in range(n):
+            name = rng.choice(['int', 'float', 'float', 'path', 'path'])
+            conf = None
+            if name == 'path':
+                conf = rng.choice(PATH_CONFS + ['+x(1)', 'a.', '//', '1', '\n', '-5', '.0', 'é'])
+            elif name == 'int':
+                conf = rng.choice([None, None, ''])
+            text = ''.join(rng.choice(self.CONCRETE_ALPHA) for _ in range(rng.randint(0, 9)))
+            if name != 'path' and rng.random() < .8:
+                k = rng.random()
+                if k < .5:
+                    num = str(rng.randrange(1000)) + rng.choice(['', '.', '.5', '.50', '.0', '.000'])
+                elif k < .7:
+                    num = '0.' + '0' * rng.randint(0, 25) + str(rng.randrange(1, 10 ** rng.randint(1, 17)))
+                elif k < .9:
+                    num = str(rng.randrange(1, 10 ** rng.randint(1, 18))) + '0' * rng.choice([0, 0, 3, 8, 20]) + \
+                        rng.choice(['', '.0', '.5', '.' + str(rng.randrange(10 ** 6))])
+                else:
+                    num = rng.choice(['1' + '0' * 309, '0.' + '0' * 330 + '1', '9' * 15 + '0' * 290, '0.' + '0' * 288 + '12',
+                                      '٣.٥', '۱۲', '1٣.٥0'])
+                text = rng.choice(['', '-', '', '00']) + num + text
+            if name == 'path' and conf and rng.random() < .6:
+                text = text + conf + (text[:2] + conf if rng.random() < .4 else '')
+            fid = '%s(%s)' % (name, conf)
+            fc = '~'
+            try:
+                h = FilterFactory.make_filter(name, conf)[0]
+                v, k, sel = h(text)
+                ans = '~' if v is None else '%s:%d' % (G.enc_val(v), k)
+                if name == 'float' and v is not None:
+                    fc = G.enc_val(v)
+                    self._bump('concrete-float-' + ('shipped-conv' if G.float_inexact(text[:k]) else 'exact'))
+            except Exception as e:
+                v, ans = None, 'err:' + G.err_name(e)
+            self._bump('concrete-' + name + ('-hit' if v is not None else '-miss'))
+            out.append(('router bfilter %s %s %s' % (core.hs(fid), core.hs(text), fc), ans,
+                        dict(kind='bfilter', fid=fid, text=text)))
         return out
 
     # ------------------------------------------------------------------
